@@ -292,8 +292,21 @@ def rule_mkdir(ctx):
     ctx.rule("C09.MKD", "make_directory issues MKD for every missing ancestor, outermost first, decided by a fresh existence test each time")
     mk = p.method("Client", "make_directory")
     wl = [w for w in walk_no_nested(mk) if isinstance(w, ast.While)]
-    ok = bool(wl) and any(isinstance(x, ast.Await) and is_self_call(x.value, {"exists"}) for x in ast.walk(wl[0].test))
-    ctx.ob("C09.MKD", mk, "each ancestor is tested with a fresh exists() call", ok, "make_directory does not test each ancestor with exists()", construct="make_directory:exists")
+    ok = False
+    if wl:
+        t = wl[0].test
+        parts = t.values if isinstance(t, ast.BoolOp) and isinstance(t.op, ast.And) else [t]
+        ex = [x for x in parts if isinstance(x, ast.UnaryOp) and isinstance(x.op, ast.Not) and isinstance(x.operand, ast.Await) and is_self_call(x.operand.value, {"exists"})]
+        others = [x for x in parts if x not in ex]
+        ok = len(ex) == 1 and all(src(x).endswith(".name") for x in others)   # `path.name and not await self.exists(path)`: nothing can short-circuit the existence test
+    ctx.ob("C09.MKD", mk, "each ancestor is tested with a fresh, unconditional exists() call", ok,
+           "make_directory does not test every ancestor with exists() unconditionally (a flag can skip the probe: MKD on an existing directory is refused with 550 and the upload aborts half-way)",
+           construct="make_directory:exists")
+    up = p.method("Client", "upload")
+    for c in walk_no_nested(up):
+        if is_self_call(c, {"make_directory"}):
+            ctx.ob("C09.MKD", c, "upload creates directories with make_directory(<target>) and its defaults (probe each level, create parents)", len(c.args) == 1 and not c.keywords,
+                   f"upload calls `{src(c)[:60]}`: non-default options change which directories are probed/created", construct=f"upload:{src(c)[:50]}")
     rev = any(isinstance(c, ast.Call) and (is_method_call(c, "reverse") or (isinstance(c.func, ast.Name) and c.func.id == "reversed")) for c in walk_no_nested(mk))
     ctx.ob("C09.MKD", mk, "missing ancestors are created outermost first", rev, "make_directory does not create the outermost missing ancestor first", construct="make_directory:order")
     # no instance-level cache consulted/filled by make_directory (keyed by the path as given it would go stale after a CWD)
